@@ -1,0 +1,12 @@
+//go:build verif
+
+package ttlcache
+
+import kclock "k8s.io/utils/clock"
+
+// NewCacheWithClock is NewCache with an injected clock. It is only compiled
+// with the "verif" build tag, for verification harnesses.
+func NewCacheWithClock[V any](opts CacheOptions, clock kclock.WithTicker) *Cache[V] {
+	opts.clock = clock
+	return NewCache[V](opts)
+}
